@@ -118,10 +118,10 @@ class Builder:
         self.arrays[name] = out
         return out if shape != () else complex(out[()])
 
-    def given(self, name, array, readonly=True):
+    def given(self, name, array, readonly=True, wrap=True):
         """A concrete (non-symbolic) argument; float/complex arrays are wrapped so symbolic stores work."""
         a = np.array(array)
-        if self.symbolic and a.dtype.kind in 'fc':
+        if self.symbolic and a.dtype.kind in 'fc' and wrap:
             s = symnp.concrete(a, readonly=readonly)
             self.arrays[name] = s
             return s
